@@ -197,9 +197,16 @@ func poolScenario(n, threads, rounds int, maxAge bool) vx.Scenario {
 // connection); the Get that ran it recovers. The expired resource is gone either way, so its
 // slot must be free again.
 func poolScenarioPanic(n, threads, rounds int, maxAge, destroyPanics bool) vx.Scenario {
+	return poolScenarioX(n, threads, rounds, maxAge, destroyPanics, false)
+}
+
+func poolScenarioX(n, threads, rounds int, maxAge, destroyPanics, strayNilPut bool) vx.Scenario {
 	name := fmt.Sprintf("pool-n%d-t%d-r%d-age%v", n, threads, rounds, maxAge)
 	if destroyPanics {
 		name += "-destroy-panics"
+	}
+	if strayNilPut {
+		name += "-stray-nil-put"
 	}
 	body := func() {
 		s := &st{}
@@ -256,6 +263,9 @@ func poolScenarioPanic(n, threads, rounds int, maxAge, destroyPanics bool) vx.Sc
 				s.fail("pool-destroyed-handed-out", "resource %d handed out after being destroyed", r.id)
 			}
 			vsched.Op("use-resource")
+			if strayNilPut {
+				p.Put(nil) // a stray Put(nil) while the resource is still held: documented no-op, never frees a slot
+			}
 			r.users--
 			p.Put(r)
 		}
@@ -578,6 +588,20 @@ func workersScenario(kind string, n, items int, panicAt int) vx.Scenario {
 					its = append(its, i)
 				}
 				fx.Just(its...).Parallel(func(item any) { work(item.(int)) }, fx.WithWorkers(n))
+			case "fx.Walk-fed":
+				// the source is a caller-owned buffered channel of capacity n that is full when the
+				// stream is built and keeps being fed: still at most n walkers at a time
+				src := vsched.MakeChan[any](n)
+				for i := 0; i < n && i < items; i++ {
+					vsched.Send(src, any(i))
+				}
+				vsched.GoNamed("feeder", false, func() {
+					for i := n; i < items; i++ {
+						vsched.Send(src, any(i))
+					}
+					vsched.Close(src)
+				})
+				fx.Range(src).Walk(func(item any, pipe chan<- any) { work(item.(int)) }, fx.WithWorkers(n)).Done()
 			case "threading.WorkerGroup":
 				// n workers run the job once each (the panicAt-th invocation panics) and Start waits for all
 				k := 0
@@ -620,8 +644,9 @@ func main() {
 	for _, n := range []int{1, 2} {
 		sc = append(sc, limitScenario(n, "BBB"), limitScenario(n, "TTT"), limitScenario(n, "BTB"))
 		sc = append(sc, timeoutLimitScenario(n, 3))
-		sc = append(sc, poolScenario(n, 3, 1, false), poolScenario(n, 2, 2, false), poolScenario(n, 2, 2, true), poolScenarioPanic(n, 2, 2, true, true))
+		sc = append(sc, poolScenario(n, 3, 1, false), poolScenario(n, 2, 2, false), poolScenario(n, 2, 2, true), poolScenarioPanic(n, 2, 2, true, true), poolScenarioX(n, 3, 1, false, false, true))
 		sc = append(sc, workersScenario("threading.WorkerGroup", n+1, 0, -1), workersScenario("threading.WorkerGroup", n+1, 0, 0))
+		sc = append(sc, workersScenario("fx.Walk-fed", n, n+2, -1))
 		sc = append(sc, taskRunnerScenario(n, 3, true, true, -1), taskRunnerScenario(n, 3, true, false, 1), taskRunnerScenario(n, 3, false, false, -1), taskRunnerScenario(n, 3, false, false, 0))
 		sc = append(sc, maxConnsScenario(n, 3, true, -1), maxConnsScenario(n, 3, false, 1), maxConnsScenario(n, 3, false, -1))
 		sc = append(sc, maxConnsScenarioKinds(n, 3, true, -1, []string{"websocket", "", "sse"}), maxConnsScenarioKinds(n, 3, true, -1, []string{"sse", "websocket"}))
